@@ -140,6 +140,9 @@ def c02(v):
 
 def c03(v):
     cfg = v.cfg
+    m = poll_placement(v)
+    if m:
+        return m + " — so the run can go on although an abort is requested"
     cnt, unk = {}, 0
     for a in range(1, v.n + 1):
         seg = v.seg[a]
@@ -393,6 +396,27 @@ def c11(v):
     return None
 
 
+def poll_placement(v):
+    """abort_if is consulted before every attempt and, after the retry decision, before every sleep"""
+    if not v.cfg["has_abort"]:
+        return None
+    since_poll = False
+    for e in v.trace:
+        if e[0] == "P":
+            since_poll = True
+        elif e[0] == "I":
+            if not since_poll:
+                return f"attempt {e[1]} started without consulting abort_if first (an abort requested during the backoff would be missed)"
+            since_poll = False
+        elif e[0] == "M" and e[1] == "retry":
+            since_poll = False
+        elif e[0] == "SL":
+            if not since_poll:
+                return "sleep started without consulting abort_if after the retry decision"
+            since_poll = False
+    return None
+
+
 def c13(v):
     cfg = v.cfg
     aborted_at = None
@@ -406,25 +430,9 @@ def c13(v):
             return f"after abort_if returned True: {rest[0]}"
         if not (v.delivery[0] == "abort" or (v.delivery[0] == "outcome" and v.delivery[1]["stop"] == "ABORTED")):
             return f"abort requested but the run ended with {v.delivery[:2]}"
-    if cfg["has_abort"]:
-        # a poll before every attempt and before every sleep
-        since_poll = False
-        failed_since = False
-        for e in v.trace:
-            if e[0] == "P":
-                since_poll = True
-            elif e[0] == "I":
-                if not since_poll:
-                    return f"attempt {e[1]} started without consulting abort_if first"
-                since_poll = False
-            elif e[0] in ("K",):
-                pass
-            elif e[0] == "M" and e[1] == "retry":
-                since_poll = False
-            elif e[0] == "SL":
-                if not since_poll:
-                    return "sleep started without consulting abort_if after the retry decision"
-                since_poll = False
+    m = poll_placement(v)
+    if m:
+        return m
     for a in range(1, v.n + 1):
         kind, dur, klass, ra = v.op(a)
         if kind == "A":
